@@ -64,12 +64,15 @@ def run_check(prop: str, tier: str, seed: int) -> int:
         violations.append((r, v))
 
     tie_broken = (not st.ok) or bool(mdiffs)
+    # literals read off function bodies differ from the pinned ones (core.prepare): the model runs with the pinned values and the
+    # correspondence - now the only tie for those constants - is extended by the search stream
+    drift = list(st.extract.get("drift") or [])
     searched = 0
     search_found = []
-    if not violations and tie_broken and hasattr(mod, "search"):
-        broken = [e.get("theorem") for e in st.errors] + st.extract.get("problems", [])
+    if not violations and (tie_broken or drift):
+        broken = [e.get("theorem") for e in st.errors] + st.extract.get("problems", []) + drift
         budget = 2000 if tier == "quick" else 20000
-        scases = mod.search(seed, broken, budget)
+        scases = mod.search(seed, broken, budget) if hasattr(mod, "search") else mod.generate(seed + 104729, tier)[:budget]
         srecs = []
         for env, group in mod.group_by_env(scases) if hasattr(mod, "group_by_env") else [({}, scases)]:
             srecs += core.evaluate(mod, group, env=env, timeout_case=timeout_case)
@@ -78,6 +81,9 @@ def run_check(prop: str, tier: str, seed: int) -> int:
             v = core.judge(mod, r)
             if v["kind"] == "impl_fail" and not any(finding_matches(f, prop, r, v) for f in findings):
                 search_found.append((r, v))
+            elif v["kind"] == "model_diff":
+                mdiffs.append((r, v))
+                tie_broken = True
         violations += search_found[:3]
 
     exit_code = 0
@@ -121,6 +127,9 @@ def run_check(prop: str, tier: str, seed: int) -> int:
             path = core.write_replay(prop, seed, "tie", payload)
             out_lines.append(f"VIOLATION property={prop} replay={path} no-failing-input-found")
             exit_code = 1
+    if drift and exit_code == 0:
+        out_lines.append(f"NOTE property={prop} extraction-drift: {len(drift)} literal list(s) read off function bodies differ from the pinned ones "
+                         f"({', '.join(drift[:4])}{' ...' if len(drift) > 4 else ''}); model constants pinned, {searched} extra cases agree")
     if infra and exit_code == 0:
         log(f"[{prop}] INFRA: {len(infra)} cases could not be run: {infra[0][1]['detail']}")
         exit_code = 2
@@ -169,6 +178,7 @@ def run_check(prop: str, tier: str, seed: int) -> int:
         "queries_total": sum(len(r["case"].get("queries", [])) for r in recs),
         "impl_failures": len(fails), "model_differences": len(mdiffs), "known_findings_hit": len(known_lines),
         "search_cases": searched,
+        "extraction_drift": drift,
     }
     core.write_evidence(prop, tier, seed, st, cov, time.time() - t0, len(violations), assumptions)
     for l in sorted(set(known_lines)):
